@@ -90,6 +90,8 @@ HARNESS_MODS = {
     "root": ("root", "."),
     "srp": ("srp", "."),
     "tlgen": ("tlgen", "internal/cmd/tlgen"),
+    # stand-alone tool modules (own go.sum, no replace => /repo): the repo root is an argument
+    "flowgraph": ("flowgraph", None),
 }
 
 
@@ -108,7 +110,7 @@ def build_harness(name, pkg=".", out=None, tags="verif"):
         txt = open(hd + "/go.mod").read().replace("=> /repo", "=> " + REPO)
         with open(md + "/go.mod", "w") as f:
             f.write(txt)
-        src = "%s/%s/go.sum" % (REPO, mod)
+        src = ("%s/%s/go.sum" % (REPO, mod)) if mod is not None else (hd + "/go.sum")
         data = open(src, "rb").read() if os.path.exists(src) else b""
         with open(md + "/go.sum", "wb") as f:
             f.write(data)
